@@ -218,3 +218,47 @@ package casket
 //@   requires i != nil
 //@   ensures [stop_reports_no_error] result == nil
 //@   ensures [lock_balance] held(instancesMu) == old(held(instancesMu))
+
+//@ unit internal_hosts frames=on props=C15 filter=`casket\.IsInternal$`
+//@ // "managed HTTPS exactly when the host qualifies": a host under one of the reserved suffixes .example, .invalid, .test,
+//@ // .local (however many labels precede it) is internal, as is a literal address in a private network; a name outside
+//@ // those suffixes that is not an IP literal is not. hasPortIn/hostIn ARE net.SplitHostPort's answer.
+//@ spec hasPortIn(addr string) bool
+//@ spec hostIn(addr string) string
+//@ extern net.SplitHostPort
+//@   ensures (result2 == nil) == hasPortIn(hostport)
+//@   ensures result2 == nil ==> result0 == hostIn(hostport)
+//@ extern strings.Trim
+//@   pure
+//@ extern strings.HasSuffix
+//@   pure
+//@ extern net.ParseIP
+//@   pure
+//@ extern net.ParseCIDR
+//@   ensures result1 != nil
+//@ extern (*net.IPNet).Contains
+//@   pure
+//@ define reserved(h string) bool = strings.HasSuffix(h, ".example") || strings.HasSuffix(h, ".invalid") || strings.HasSuffix(h, ".test") || strings.HasSuffix(h, ".local")
+//@ func IsInternal
+//@   ensures [reserved_suffix_with_port] (hasPortIn(addr) && reserved(hostIn(addr))) ==> result
+//@   ensures [reserved_suffix_bare] (!hasPortIn(addr) && reserved(strings.Trim(addr, "[]"))) ==> result
+//@   ensures [other_names_are_public] (!hasPortIn(addr) && !reserved(strings.Trim(addr, "[]")) && net.ParseIP(strings.Trim(addr, "[]")) == nil) ==> !result
+//@   ensures [other_names_with_port_are_public] (hasPortIn(addr) && !reserved(hostIn(addr)) && net.ParseIP(hostIn(addr)) == nil) ==> !result
+//@   loop 1 invariant 0 <= #i && #i <= 4 && len(privateTLDs) == 4 && privateTLDs[0] == ".example" && privateTLDs[1] == ".invalid" && privateTLDs[2] == ".test" && privateTLDs[3] == ".local"
+//@   loop 1 invariant forall(k, 0, #i, !strings.HasSuffix(host, privateTLDs[k]))
+//@   loop 1 invariant (hasPortIn(addr) ==> host == hostIn(addr)) && (!hasPortIn(addr) ==> host == strings.Trim(addr, "[]"))
+
+//@ unit process_shutdown props=C16 filter=`casket\.allShutdownCallbacks$`
+//@ // "process shutdown runs every live instance's shutdown callbacks": every instance on the list (started instances are
+//@ // on it whether or not they serve anything) has ShutdownCallbacks called on it exactly once, under the list's lock.
+//@ ghostfn ran
+//@ func (*Instance).ShutdownCallbacks
+//@   requires i != nil
+//@   modifies ghost:ran
+//@   ensures ran(i) == old(ran(i)) + 1 && forallT(o, *Instance, o != i ==> ran(o) == old(ran(o)))
+//@ func allShutdownCallbacks
+//@   requires forall(k, 0, len(instances), instances[k] != nil && forall(j, 0, k, instances[j] != instances[k]))
+//@   modifies ghost:ran
+//@   ensures [every_listed_instance_once] forall(k, 0, len(instances), ran(instances[k]) == old(ran(instances[k])) + 1)
+//@   ensures [lock_balance] held(instancesMu) == old(held(instancesMu))
+//@   loop 1 invariant 0 <= #i && #i <= len(instances) && forall(k, 0, #i, ran(instances[k]) == old(ran(instances[k])) + 1) && forall(k, #i, len(instances), ran(instances[k]) == old(ran(instances[k])))
